@@ -20,6 +20,14 @@ pub struct C20Case {
     #[serde(default)]
     /// 0: whole file, 1: one byte far beyond EOF, 2: first byte only, 3: from offset 1 to infinity
     pub range: u8,
+    /// the foreign process holds a shared (read) lock instead of an exclusive one; it still
+    /// conflicts with the exclusive lock a dedupe command must obtain
+    #[serde(default)]
+    pub read_lock: bool,
+    /// the locked files are read-only (mode 0444) and fclones runs without CAP_DAC_OVERRIDE
+    /// (through setpriv), i.e. like an ordinary user who may delete but not write them
+    #[serde(default)]
+    pub readonly: bool,
 }
 
 fn profile() -> ScenarioProfile {
@@ -38,15 +46,15 @@ fn profile() -> ScenarioProfile {
 }
 
 fn case_strategy() -> BoxedStrategy<C20Case> {
-    (dcase_strategy(profile()), proptest::collection::vec(0u16..u16::MAX, 1..4), prop::bool::weighted(0.1), 0u8..4)
-        .prop_map(|(mut d, locked, lock_all, range)| {
+    (dcase_strategy(profile()), proptest::collection::vec(0u16..u16::MAX, 1..4), prop::bool::weighted(0.1), 0u8..4, prop::bool::weighted(0.35), prop::bool::weighted(0.2))
+        .prop_map(|(mut d, locked, lock_all, range, read_lock, readonly)| {
             // access times change when the harness reads files; keep the intention stable
             for p in d.dopts.priority.iter_mut() {
                 if *p % 12 == 6 || *p % 12 == 7 {
                     *p = 0;
                 }
             }
-            C20Case { d, locked, lock_all, range }
+            C20Case { d, locked, lock_all, range, read_lock, readonly }
         })
         .boxed()
 }
@@ -54,10 +62,10 @@ fn case_strategy() -> BoxedStrategy<C20Case> {
 const F_OFD_SETLK: libc::c_int = 37;
 
 /// Takes an open-file-description write lock on the whole file; the returned File keeps it.
-fn ofd_lock(p: &std::path::Path, range: u8) -> Option<std::fs::File> {
-    let f = std::fs::OpenOptions::new().read(true).write(true).open(p).ok()?;
+fn ofd_lock(p: &std::path::Path, range: u8, read_lock: bool) -> Option<std::fs::File> {
+    let f = std::fs::OpenOptions::new().read(true).write(!read_lock).open(p).ok()?;
     let mut fl: libc::flock = unsafe { std::mem::zeroed() };
-    fl.l_type = libc::F_WRLCK as i16;
+    fl.l_type = if read_lock { libc::F_RDLCK } else { libc::F_WRLCK } as i16;
     fl.l_whence = libc::SEEK_SET as i16;
     let (start, len) = match range % 4 {
         1 => (0x4000_0000, 1),
@@ -123,7 +131,17 @@ pub fn run_case(c: &C20Case, n: u64) -> Verdict {
 }
 
 fn judge(c: &C20Case, g: &Grouped, target: &std::path::PathBuf) -> Verdict {
-    let d = &c.d;
+    // making the locked files read-only changes their status-change time between the dry run that
+    // tells the intention and the real run: such priorities are replaced in those cases
+    let mut d_adj = c.d.clone();
+    if c.readonly {
+        for p in d_adj.dopts.priority.iter_mut() {
+            if *p % 12 == 8 || *p % 12 == 9 {
+                *p = 0;
+            }
+        }
+    }
+    let d = &d_adj;
     if g.group.timed_out {
         return Verdict::Inconclusive("timeout".into());
     }
@@ -162,18 +180,34 @@ fn judge(c: &C20Case, g: &Grouped, target: &std::path::PathBuf) -> Verdict {
         if !done.insert(id) {
             continue;
         }
-        match ofd_lock(&bytes_path(p), c.range) {
+        match ofd_lock(&bytes_path(p), c.range, c.read_lock) {
             Some(f) => held.push(f),
             None => return Verdict::Inconclusive("harness could not take OFD lock".into()),
         }
     }
     let (args, _) = dedupe_args(d, &files, &g.canon_roots, target, false);
-    let run = Run::fclones(&g.cd).args(&args).stdin(g.report_bytes.clone());
+    let mut run = Run::fclones(&g.cd).args(&args).stdin(g.report_bytes.clone());
+    let before = if c.readonly && std::path::Path::new("/usr/bin/setpriv").exists() {
+        use std::os::unix::fs::PermissionsExt;
+        for p in &lock_set {
+            let _ = std::fs::set_permissions(bytes_path(p), std::fs::Permissions::from_mode(0o444));
+        }
+        let mut a: Vec<std::ffi::OsString> = vec!["--bounding-set=-dac_override,-dac_read_search".into(), FCLONES_BIN.into()];
+        a.extend(args.iter().cloned());
+        run = Run::program(&g.cd, "/usr/bin/setpriv").args(&a).stdin(g.report_bytes.clone());
+        Snapshot::take(&[&tree, target])
+    } else {
+        before
+    };
     let cmd = format!("{}\n{} < report   [locked by another open file description: {:?}]", g.group_cmd, run.cmdline(), lock_set.iter().map(|p| B(p.clone())).collect::<Vec<_>>());
     let out = run.run();
     let after = Snapshot::take(&[&tree, target]);
     drop(held);
-    let sig = vec![format!("op-{}", d.op.name()), if d.dopts.no_lock { "no-lock".to_string() } else { "locking".to_string() }, format!("lock-range-{}", c.range % 4), format!("target-{}", d.move_target)];
+    let mut sig = vec![format!("op-{}", d.op.name()), if d.dopts.no_lock { "no-lock".to_string() } else { "locking".to_string() }, format!("lock-range-{}", c.range % 4), format!("target-{}", d.move_target)];
+    sig.push(if c.read_lock { "foreign-read-lock".into() } else { "foreign-write-lock".into() });
+    if c.readonly {
+        sig.push("locked-files-read-only-no-dac-override".into());
+    }
     let fail = |clause: &str, detail: String| Verdict::Fail { clause: clause.into(), detail: format!("{}\n{}\n{}", cmd, detail, out.brief()), sig: sig.clone() };
     if out.timed_out {
         return Verdict::Inconclusive("timeout".into());
@@ -219,8 +253,8 @@ pub fn check(tier: Tier) -> i32 {
     cleanup_process_scratch();
     ctx.finish(
         "exploration",
-        "proptest-generated dedupe scenarios (hostile file names, hard links, priorities, -n, isolate) x operation (remove, link, link --soft, move, dedupe) x a non-empty subset of the files the command intends to process (learnt from a dry run) locked by the harness with open-file-description write locks x --no-lock on/off. Oracle: without --no-lock every locked file is untouched (same inode, bytes, path) and a warning is logged, every unlocked intended file is processed; with --no-lock all intended files are processed. Non-trivial = at least one locked and one unlocked intended file in the same run (operation other than the unsupported reflink).",
-        &["F_OFD_SETLK write locks held by the harness conflict with fclones' fcntl(F_SETLK) like a lock of a foreign process", "reflink is unsupported here: for `dedupe` only 'locked files untouched' is checked"],
+        "proptest-generated dedupe scenarios (hostile file names, hard links, priorities, -n, isolate) x operation (remove, link, link --soft, move, dedupe) x a non-empty subset of the files the command intends to process (learnt from a dry run) locked by the harness with open-file-description write or read locks (whole file or byte ranges) x --no-lock on/off; in a fifth of the cases the locked files are read-only and fclones runs without CAP_DAC_OVERRIDE (setpriv), like an ordinary user who may delete but not open them for writing. Oracle: without --no-lock every locked file is untouched (same inode, bytes, path) and a warning is logged, every unlocked intended file is processed; with --no-lock all intended files are processed. Non-trivial = at least one locked and one unlocked intended file in the same run (operation other than the unsupported reflink).",
+        &["F_OFD_SETLK write/read locks held by the harness conflict with fclones' fcntl(F_SETLK) like a lock of a foreign process", "reflink is unsupported here: for `dedupe` only 'locked files untouched' is checked"],
     )
 }
 
